@@ -3,7 +3,7 @@ import re
 
 SPEC = {
     "properties_file": "Properties_C05.v",
-    "facts": ["cache_expiry_ms_per_s", "cache_lookup_match", "cache_match"],
+    "facts": ["cache_expiry_ms_per_s", "cache_lookup_match", "cache_match", "cache_rearm", "cache_trigger_passed"],
     "assumptions": ["exact timer scheduling (Qt's coarse-timer slack and OS latency are outside the model)",
                     "TTL <= 2 000 000 s (one week is 604 800 s) so that the 32-bit arithmetic of cache.cpp does not wrap"],
 }
